@@ -1,5 +1,7 @@
 (* C09 — every request that reaches a server context gets exactly one final response reflecting the handler outcome.
-   Only statements here; every proof is [exact <lemma of Proofs/C09.v / Proofs/C09Stack.v>]. *)
+   Only statements here; every proof is [exact <lemma of Proofs/C09.v / Proofs/C09Stack.v>].
+   Standing hypothesis, carried by the types: a response Message has a [bytes] payload (it serialises). A [str] payload is
+   the open finding C09:unencodable-response (known_findings.d/C09.json), exercised by an oracle-only stream of the check. *)
 From Coq Require Import String Ascii.
 From Verif Require Import Lib.Py Lib.Tactics Model.C09 Model.C09Stack Proofs.C09 Proofs.C09Stack.
 Open Scope Z_scope.
